@@ -185,7 +185,9 @@ impl super::FeeRule for FeeRule {
         for sz in transparent_input_sizes.into_iter() {
             match sz {
                 transparent::InputSize::Known(s) => {
-                    t_in_total_size += s;
+                    t_in_total_size = t_in_total_size
+                        .checked_add(s)
+                        .ok_or(BalanceError::Overflow)?;
                 }
                 transparent::InputSize::Unknown(outpoint) => {
                     unknown_p2sh_outpoints.push(outpoint.clone());
@@ -197,16 +199,21 @@ impl super::FeeRule for FeeRule {
             return Err(FeeError::UnknownP2shInputs(unknown_p2sh_outpoints));
         }
 
-        let t_out_total_size = transparent_output_sizes.into_iter().sum();
+        let t_out_total_size = transparent_output_sizes
+            .into_iter()
+            .try_fold(0usize, |acc, sz| acc.checked_add(sz))
+            .ok_or(BalanceError::Overflow)?;
 
         let ceildiv = |num: usize, den: usize| num.div_ceil(den);
 
         let logical_actions = max(
             ceildiv(t_in_total_size, self.p2pkh_standard_input_size),
             ceildiv(t_out_total_size, self.p2pkh_standard_output_size),
-        ) + max(sapling_input_count, sapling_output_count)
-            + orchard_action_count
-            + ironwood_action_count;
+        )
+        .checked_add(max(sapling_input_count, sapling_output_count))
+        .and_then(|n| n.checked_add(orchard_action_count))
+        .and_then(|n| n.checked_add(ironwood_action_count))
+        .ok_or(BalanceError::Overflow)?;
 
         (self.marginal_fee * max(self.grace_actions, logical_actions))
             .ok_or_else(|| BalanceError::Overflow.into())
